@@ -64,6 +64,24 @@ impl Node {
     pub fn children(&self) -> impl Iterator<Item = &Node> {
         self.items.iter().filter_map(|i| if let Item::Node(n) = i { Some(n) } else { None })
     }
+    /// adjacent text items merged into one (recursively): XML cannot tell `[a, b]` from `[ab]`, so a model with two adjacent
+    /// text items and its serialized and reloaded form are equivalent (DESIGN section 8)
+    pub fn with_adjacent_text_merged(&self) -> Node {
+        let mut out = Node { name: self.name.clone(), attrs: self.attrs.clone(), items: vec![], comment: self.comment.clone() };
+        for it in &self.items {
+            match it {
+                Item::Node(n) => out.items.push(Item::Node(n.with_adjacent_text_merged())),
+                Item::Text(v) => {
+                    if let Some(Item::Text(prev)) = out.items.last_mut() {
+                        *prev = Val::Str(format!("{}{}", prev.text(), v.text()));
+                    } else {
+                        out.items.push(Item::Text(v.clone()));
+                    }
+                }
+            }
+        }
+        out
+    }
     pub fn count_nodes(&self) -> usize {
         1 + self.children().map(|c| c.count_nodes()).sum::<usize>()
     }
